@@ -1,5 +1,3 @@
--- Driver executable drv_misc (stub until its family is implemented).
-import AutomataVerif.Driver.Proto
+import AutomataVerif.Driver.Misc
 def main : IO Unit := do
-  AV.Proto.loop (← IO.getStdin) (← IO.getStdout) fun cmd _ =>
-    if cmd == "PING" then .ok "pong" else .error s!"unknown command {cmd}"
+  AV.Proto.loop (← IO.getStdin) (← IO.getStdout) AV.VA.Driver.handle
